@@ -50,7 +50,9 @@ MemberSet == IF Depth = 1 THEN M1 ELSE M2
 Formulas ==
   {TrueF} \cup {[k |-> "and", fs |-> <<m>>] : m \in MemberSet}
   \cup (IF Depth = 1 THEN {[k |-> "and", fs |-> <<m1, m2>>] : m1, m2 \in M1}
-        ELSE {[k |-> "and", fs |-> <<m1, m2>>] : m1 \in L0, m2 \in M2 \ L0})
+        ELSE {[k |-> "and", fs |-> <<m1, m2>>] : m1 \in L0, m2 \in M2 \ L0}
+             \* the nested member first: a literal that also occurs inside an earlier sibling
+             \cup {[k |-> "and", fs |-> <<m2, m1>>] : m1 \in {x \in L0 : x.k \in {"atom", "not"}}, m2 \in Pairs("or") \cup Pairs("and")})
 
 ----------------------------------------------------------------------------
 FactsAll == {<<"p", <<o>>>> : o \in Objs} \cup {<<"q", <<o1, o2>>>> : o1, o2 \in Objs}
